@@ -1,122 +1,218 @@
-"""C05 - percentage phrases compute the textbook formulas for numbers and money."""
+"""C05 - percentage phrases compute the textbook formulas for numbers and money.
+
+Generator: the seven phrases x both operand orders (where the phrase allows it) x both percent spellings
+('p%', '%p') x operand kinds {plain literal, plain atom [NUMBER:x], money with a currency symbol, money with any
+of the currency codes of config.json (upper / lower case), money atom [MONEY:x;code], a session variable holding a
+number / money / percentage} x values {0, +-integers, fractions, large, tiny (atoms)}.
+Oracle (independent of the model): the exact rational formula of the statement evaluated on the binary64 values
+of the operands; the result must have the right kind (Number / Percent / Money in the operand's currency) and
+agree up to a relative error of 2^-40 of the largest intermediate magnitude."""
+import json, os
 from fractions import Fraction
 from .common import *
 
 ALLOWED_AXIOMS = []
 DETAIL = 0
-RULE = ("X, A, B, p from {0, +-small integers, fractions, large, tiny} x {plain, money in 8 currencies} x both percent "
-        "spellings x both operand orders x the seven phrases; expected value = exact rational formula, compared with "
-        "relative tolerance 2^-40; non-trivial = evaluates to a number/percent/money; distinct = distinct text")
-ASSUMPTIONS = ["binary64 results are compared with the exact rational formula up to relative error 2^-40"]
+RULE = ("X, A, B, p from {0, +-small integers, fractions, large, tiny} x {plain literal, [NUMBER:x] atom, money by "
+        "symbol / alias word, money by any of the 161 currency codes, session variable} x percent spellings "
+        "{p%, %p, [PERCENT:p] atom, variable} x both operand orders x the seven phrases, en (and tr, same patterns); "
+        "expected value = exact rational formula on the binary64 operand values, compared with relative tolerance "
+        "2^-40 of the largest intermediate; non-trivial = evaluates to a number/percent/money; distinct = distinct text")
+ASSUMPTIONS = ["binary64 results are compared with the exact rational formula up to relative error 2^-40 (of the "
+               "largest of |X|, |X*p/100|, |result|: 'X - p%' with p near 100 cancels)",
+               "operands are kept within 1e-100 .. 1e100 in magnitude so that no intermediate product overflows or "
+               "underflows (an overflowing intermediate is turned into 0 by the guarded division; the statement is "
+               "about finite results)"]
 
-VALUES = [0, 1, 2, 5, 10, 12.5, 50, 80, 99.99, 100, 150, 200, 1234.5, 0.5, 0.25, 0.001, 1000000, 123456789]
-PCTS = [0, 1, 5, 7.5, 10, 12.5, 15, 20, 25, 33, 50, 75, 99.9, 100, 150, 200, 0.5]
-CURRENCIES = [("$", "USD", "pre"), ("₺", "TRY", "pre"), ("€", "EUR", "pre"), ("usd", "USD", "post"), ("try", "TRY", "post"),
-              ("eur", "EUR", "post"), ("dkk", "DKK", "post"), ("sek", "SEK", "post"), ("bgn", "BGN", "post"),
-              ("jpy", "JPY", "post"), ("gbp", "GBP", "post")]
+_cfg = json.load(open("/repo/src/json/config.json", encoding="utf-8"))
+CODES = sorted(_cfg["currencies"].keys())                      # 161 codes, upper case
+# words that must not be read as something else when they follow a number ("10 on", "10 is" are not money because
+# these are not currency codes; a code equal to a phrase word or a unit/constant word would be ambiguous)
+SYMBOLS = [("$", "USD"), ("₺", "TRY"), ("€", "EUR")]
+ALIASES = [("tl", "TRY"), ("dollar", "USD"), ("euro", "EUR"), ("kr", "DKK"), ("leva", "BGN")]
+
+INTS = [0, 1, 2, 3, 5, 7, 10, 12, 40, 50, 80, 99, 100, 150, 200, 1000, 1000000, 123456789]
+FRACS = [0.5, 0.25, 0.125, 12.5, 99.99, 0.001, 1234.5, 33.33, 7.5, 0.1, 2.675, 1000.5]
+ATOMS = ["1e-7", "2.5e20", "1e100", "3.5e-100", "0.000001", "123456789012345678", "4.9e-30", "6.02e23", "1e15", ".5", "5."]
+PCT_INTS = [0, 1, 5, 6, 10, 15, 20, 25, 33, 50, 75, 99, 100, 101, 150, 200, 1000]
+PCT_FRACS = [0.5, 7.5, 12.5, 99.9, 0.01, 33.33, 2.25, 100.5]
 TOL = Fraction(1, 2 ** 40)
+
+
+def F(x):
+    return Fraction(float(x))
+
+
+class Operand:
+    """text to put into the line, exact value, currency code or None, optional variable definition line"""
+    def __init__(self, text, val, code=None, pre=None):
+        self.text, self.val, self.code, self.pre = text, val, code, pre
+
+
+def pick_value(rng, allow_neg=True):
+    r = rng.random()
+    if r < 0.5:
+        v = rng.choice(INTS)
+    elif r < 0.8:
+        v = rng.choice(FRACS)
+    else:
+        v = round(rng.uniform(0, 10000), rng.randint(0, 3))
+    if allow_neg and rng.random() < 0.2:
+        v = -v
+    return v
 
 
 def lit(rng, v):
     return fmt_dec(v, tsep=rng.choice([None, None, "."]))
 
 
-def amount(rng, v, cur):
-    s = lit(rng, v)
-    if cur is None:
-        return s
-    sym, code, pos = cur
-    if pos == "pre":
-        return sym + s
-    return s + rng.choice([" ", ""]) + rng.choice([sym, sym.upper()])
+def make_amount(rng, money, var_ok=True):
+    """an operand X / A / B: plain or money"""
+    r = rng.random()
+    if not money:
+        if r < 0.12:
+            a = rng.choice(ATOMS)
+            if rng.random() < 0.3:
+                a = "-" + a
+            op = Operand("[NUMBER:%s]" % a, F(a))
+        else:
+            v = pick_value(rng)
+            op = Operand(lit(rng, v), F(v))
+    else:
+        # no [MONEY:x;code] atoms: the global alias ';' -> '' (regex \b;\b, config.json "alias") matches the atom's
+        # own text, so alias_tokinizer turns every such token into Text("") - in the crate and in the model alike;
+        # atoms are not part of the statement (reported, not a C05 failure)
+        if r < 0.3:
+            v = pick_value(rng, allow_neg=False)
+            sym, code = rng.choice(SYMBOLS)
+            neg = rng.random() < 0.15
+            # '$-5': the sign is part of the PRICE group of the money regex
+            op = Operand(sym + ("-" if neg else "") + lit(rng, v), F(-v if neg else v), code)
+        elif r < 0.4:
+            v = pick_value(rng)
+            word, code = rng.choice(ALIASES)
+            op = Operand(lit(rng, v) + " " + word, F(v), code)
+        else:
+            v = pick_value(rng)
+            code = rng.choice(CODES)
+            op = Operand(lit(rng, v) + rng.choice([" ", " ", ""]) + rng.choice([code, code.lower()]), F(v), code)
+    if var_ok and rng.random() < 0.1:
+        name = rng.choice(["x", "y", "amount", "base", "total"])
+        op = Operand(name, op.val, op.code, pre="%s = %s" % (name, op.text))
+    return op
 
 
-def pct(rng, p):
-    s = fmt_dec(p)
-    return s + "%" if rng.random() < 0.6 else "%" + s
+def make_percent(rng, var_ok=True):
+    r = rng.random()
+    if r < 0.1:
+        a = rng.choice(["1e-7", "2.5e3", "0.000001", "12.5", "1e10", ".5", "100", "0"])
+        if rng.random() < 0.3:
+            a = "-" + a
+        op = Operand("[PERCENT:%s]" % a, F(a))
+    else:
+        p = rng.choice(PCT_INTS) if rng.random() < 0.6 else (rng.choice(PCT_FRACS) if rng.random() < 0.6
+                                                            else round(rng.uniform(0, 300), rng.randint(0, 2)))
+        if rng.random() < 0.15:
+            p = -p
+        s = fmt_dec(p)
+        op = Operand(s + "%" if rng.random() < 0.5 else "%" + s, F(p))
+    if var_ok and rng.random() < 0.07:
+        name = rng.choice(["rate", "vat", "pct"])
+        op = Operand(name, op.val, None, pre="%s = %s" % (name, op.text))
+    return op
 
 
-def F(x):
-    return Fraction(repr(float(x)))
+PHRASES = ["plus", "minus", "of", "on", "off", "what", "ofwhat"]
 
 
 def generate(rng, tier):
-    n = 400 if tier == "quick" else 6000
-    cases = []
+    n = 600 if tier == "quick" else 8000
+    cases, seen = [], set()
     while len(cases) < n:
-        X = rng.choice(VALUES) if rng.random() < 0.7 else round(rng.uniform(0, 10000), rng.randint(0, 3))
-        p = rng.choice(PCTS) if rng.random() < 0.7 else round(rng.uniform(0, 300), rng.randint(0, 2))
-        if rng.random() < 0.15:
-            X = -X
-        if rng.random() < 0.1:
-            p = -p
-        cur = rng.choice(CURRENCIES) if rng.random() < 0.4 else None
-        neg_money = cur is not None and X < 0
-        if neg_money:
-            X = -X                      # signed money literals belong to C06
-        code = cur[1] if cur else None
-        fx, fp = F(X), F(p)
-        phrase = rng.choice(["plus", "minus", "of", "on", "off", "what", "ofwhat"])
-        sp = " " * rng.choice([1, 1, 2])
-        xs, ps = amount(rng, X, cur), pct(rng, p)
-        if phrase == "plus":
-            text, exp, typ = xs + sp + "+" + sp + ps, fx * (1 + fp / 100), "same"
-        elif phrase == "minus":
-            text, exp, typ = xs + sp + "-" + sp + ps, fx * (1 - fp / 100), "same"
-        elif phrase == "of":
-            text = (ps + sp + "of" + sp + xs) if rng.random() < 0.7 else (xs + sp + "of" + sp + ps)
-            exp, typ = fx * fp / 100, "same"
-        elif phrase == "on":
-            text = (ps + sp + "on" + sp + xs) if rng.random() < 0.7 else (xs + sp + "on" + sp + ps)
-            exp, typ = fx * (1 + fp / 100), "same"
-        elif phrase == "off":
-            text = (ps + sp + "off" + sp + xs) if rng.random() < 0.7 else (xs + sp + "off" + sp + ps)
-            exp, typ = fx * (1 - fp / 100), "same"
+        phrase = PHRASES[len(cases) % len(PHRASES)] if rng.random() < 0.8 else rng.choice(PHRASES)
+        money = rng.random() < 0.45
+        x = make_amount(rng, money)
+        p = make_percent(rng)
+        sp = lambda: " " * rng.choice([1, 1, 1, 2])
+        mags = [abs(x.val)]
+        if phrase in ("plus", "minus"):
+            op = "+" if phrase == "plus" else "-"
+            text = x.text + sp() + op + sp() + p.text
+            share = x.val * p.val / 100
+            exp = x.val + share if phrase == "plus" else x.val - share
+            typ, mags = "same", mags + [abs(share)]
+        elif phrase in ("of", "on", "off"):
+            text = (p.text + sp() + phrase + sp() + x.text) if rng.random() < 0.5 else (x.text + sp() + phrase + sp() + p.text)
+            share = x.val * p.val / 100
+            exp = share if phrase == "of" else (x.val + share if phrase == "on" else x.val - share)
+            typ, mags = "same", mags + [abs(share)]
         elif phrase == "what":
-            B = rng.choice(VALUES)
-            fb = F(B)
-            bs = amount(rng, B, cur)
-            text = xs + sp + "is what % of" + sp + bs
-            exp, typ = (100 * fx / fb if fb != 0 else Fraction(0)), "percent"
+            b = make_amount(rng, money if rng.random() < 0.8 else not money)
+            if b.pre and x.pre and b.text == x.text:
+                continue
+            if rng.random() < 0.12:
+                b = Operand("0", Fraction(0)) if b.code is None else Operand("0 " + b.code, Fraction(0), b.code)
+            text = x.text + sp() + "is what % of" + sp() + b.text
+            exp = 100 * x.val / b.val if b.val != 0 else Fraction(0)      # a zero divisor yields 0
+            typ, mags = "percent", [abs(exp)]
+            if b.pre:
+                x = Operand(x.text, x.val, x.code, pre=(x.pre + "\n" if x.pre else "") + b.pre)
         else:
-            text = xs + sp + "is" + sp + ps + sp + "of what"
-            exp, typ = (100 * fx / fp if fp != 0 else Fraction(0)), "same"
-        if phrase in ("plus", "minus") and X < 0 and text.startswith("-"):
-            pass
-        if p < 0 and phrase in ("plus", "minus"):
-            # "100 + -10%": the sign belongs to the percentage literal
-            pass
-        cases.append(exec_case(text, "en", kind=phrase + ("-money" if cur else ""),
-                               expect=[exp.numerator, exp.denominator], typ=typ, cur=code))
+            if rng.random() < 0.12:
+                p = Operand(rng.choice(["0%", "%0"]), Fraction(0))
+            text = x.text + sp() + "is" + sp() + p.text + sp() + "of what"
+            exp = 100 * x.val / p.val if p.val != 0 else Fraction(0)
+            typ, mags = "same", [abs(exp)]
+        pre = [q for q in (x.pre, p.pre) if q]
+        full = "\n".join(pre + [text])
+        # keep every intermediate well inside the binary64 range (see ASSUMPTIONS)
+        if any(m != 0 and not (Fraction(1, 10 ** 120) < m < Fraction(10 ** 120)) for m in mags + [abs(exp)]):
+            continue
+        if full in seen:
+            continue
+        seen.add(full)
+        lang = "tr" if rng.random() < 0.1 else "en"
+        mag = max(mags + [abs(exp)])
+        cases.append(exec_case(full, lang, kind=phrase + ("-money" if x.code else ""), nlines=full.count("\n") + 1,
+                               expect=[exp.numerator, exp.denominator], mag=[mag.numerator, mag.denominator],
+                               typ=typ, cur=x.code))
     return cases
 
 
-def nontrivial(c, rec):
+def _last(c, rec):
     lines = last_lines(rec)
-    if not lines or lines[0] is None:
+    if lines is None:
+        return None, "evaluation panicked or hung"
+    if len(lines) != c["meta"]["nlines"] or lines[-1] is None:
+        return None, "expected %d results, got %r" % (c["meta"]["nlines"], lines)
+    return lines[-1], None
+
+
+def nontrivial(c, rec):
+    line, err = _last(c, rec)
+    if err:
         return False
-    k, v = line_value(lines[0])
+    k, v = line_value(line)
     return k == "item"
 
 
-def close(got, exp):
-    g = Fraction(repr(got)) if got == got and abs(got) != float("inf") else None
-    if g is None:
+def close(got, exp, mag):
+    if got != got or abs(got) == float("inf"):
         return False
-    if exp == 0:
-        return abs(g) <= Fraction(1, 10 ** 12)
-    return abs(g - exp) <= abs(exp) * TOL
+    g = Fraction(got)
+    if exp == 0 and mag == 0:
+        return g == 0
+    return abs(g - exp) <= mag * TOL
 
 
 def spec_check(c, rec, header):
     m = c["meta"]
     exp = Fraction(m["expect"][0], m["expect"][1])
-    lines = last_lines(rec)
-    if lines is None:
-        return "evaluation panicked or hung"
-    if len(lines) != 1 or lines[0] is None:
-        return "expected one result, got %r" % (lines,)
-    k, v = line_value(lines[0])
+    mag = Fraction(m["mag"][0], m["mag"][1])
+    line, err = _last(c, rec)
+    if err:
+        return err
+    k, v = line_value(line)
     if k != "item":
         return "expected a value, got %s %r" % (k, v)
     want = "Percent" if m["typ"] == "percent" else ("Money" if m["cur"] else "Number")
@@ -125,7 +221,7 @@ def spec_check(c, rec, header):
     if want == "Money" and v["cur"] != m["cur"]:
         return "expected currency %s, got %s" % (m["cur"], v["cur"])
     got = from_bits(v["v"])
-    if not close(got, exp):
+    if not close(got, exp, mag):
         return "expected %s (= %.17g), got %.17g" % (exp, float(exp), got)
     return None
 
